@@ -164,6 +164,113 @@ def g_mader():
     return functions_group('mader/rarefaction.py', 'Mader', specs)
 
 
+@group('sedov')
+def g_sedov():
+    """Sedov: constructor constants (straight-line self.X = ... assignments of __init__), the similarity functions
+    sedov_funcs_standard for each special_singularity value, the energy integrands efun01 / efun02, the shock radius
+    and post-shock state of _run, and physical(); quad, fminbound and the interpolation loop are outside the subset"""
+    from gen import translate_method
+    from py2coq import Interp, free_vars
+    mod = Module(os.path.join(S, 'sedov/sedov.py'))
+    cn = mod.classes['Sedov']
+    meth = {st.name: st for st in cn.body if isinstance(st, ast.FunctionDef)}
+    text = HEADER % 'exactpack/solvers/sedov/sedov.py'
+    js = {}
+    PARAMS = ['geometry', 'gamma', 'omega', 'rho0', 'eblast']
+
+    def emit(nm, args, e, comment):
+        nonlocal text
+        fv = free_vars(e)
+        for v in fv:
+            if v not in args:
+                raise Unsupported('sedov: %s has stray variable %s' % (nm, v))
+        args = [a for a in args if a in fv]
+        text += '\n' + emit_function(nm, args, e, comment=comment)
+        text += '#[global] Hint Unfold %s : epgen.\n' % nm
+        js[nm] = {'args': args, 'expr': expr_to_json(e)}
+
+    # --- constructor constants: the unconditional top-level assignments self.X = <expr> of __init__, in order
+    CONSTS = ['gamm1', 'gamp1', 'gpogm', 'xg2', 'denom2', 'denom3', 'v2', 'vstar', 'a0', 'a2', 'a1', 'a3', 'a4', 'a5',
+              'a_val', 'b_val', 'c_val', 'd_val', 'e_val']
+    selfo = Obj('', {a: ('var', a) for a in PARAMS}, frozen=True, name='self')
+    interp = Interp(mod, {})
+    env = {'self': selfo}
+    seen = []
+    for st in meth['__init__'].body:
+        if isinstance(st, ast.Assign) and len(st.targets) == 1 and isinstance(st.targets[0], ast.Attribute) \
+                and isinstance(st.targets[0].value, ast.Name) and st.targets[0].value.id == 'self' and st.targets[0].attr in CONSTS:
+            nm = st.targets[0].attr
+            if nm in seen:
+                raise Unsupported('sedov.__init__: %s assigned twice at top level' % nm)
+            v = interp.ev(st.value, env)
+            selfo.attrs[nm] = v
+            seen.append(nm)
+            emit('sed_' + nm, PARAMS, v, 'Sedov.__init__: self.%s' % nm)
+    missing = [c for c in CONSTS if c not in seen]
+    if missing:
+        raise Unsupported('sedov.__init__: no top-level assignment of %s' % missing)
+
+    # --- similarity functions, for each special_singularity value; constants are free variables here
+    SV = ['geometry', 'gamma', 'omega', 'gamm1', 'gamp1', 'gpogm', 'xg2', 'a0', 'a1', 'a2', 'a3', 'a4', 'a5', 'a_val', 'b_val', 'c_val', 'd_val', 'e_val']
+    for sing, tag in (('none', 'std'), ('omega2', 'om2'), ('omega3', 'om3')):
+        ret, it = translate_method(mod, 'Sedov', 'sedov_funcs_standard', ['v'], SV, self_consts={'special_singularity': sing})
+        if it.raises or not (isinstance(ret, (tuple, list)) and len(ret) == 5):
+            raise Unsupported('sedov_funcs_standard(%s): unexpected shape' % sing)
+        for nm, e in zip(('lam', 'dlamdv', 'f', 'g', 'h'), ret):
+            emit('sed_%s_%s' % (tag, nm), ['v'] + SV, e, 'sedov_funcs_standard(v)[%s], special_singularity = %s' % (nm, sing))
+        for en in ('efun01', 'efun02'):
+            ret, it = translate_method(mod, 'Sedov', en, ['v'], SV, self_consts={'special_singularity': sing})
+            if it.raises or not is_expr(ret):
+                raise Unsupported('sedov %s(%s): unexpected shape' % (en, sing))
+            emit('sed_%s_%s' % (tag, en), ['v'] + SV, ret, '%s(v), special_singularity = %s' % (en, sing))
+
+    # --- shock radius and post-shock state: the unconditional top-level assignments of _run
+    RUNV = ['r2', 'rho1', 'us', 'u2', 'rho2', 'p2']
+    selfo2 = Obj('', {a: ('var', a) for a in ['rho0', 'eblast', 'alpha', 'omega', 'xg2', 'gamp1', 'gpogm', 'geometry', 'gamma', 'gamm1']}, frozen=True, name='self')
+    interp2 = Interp(mod, {})
+    env2 = {'self': selfo2, 't': ('var', 't')}
+    seen = []
+    for st in meth['_run'].body:
+        if isinstance(st, ast.Assign) and len(st.targets) == 1 and isinstance(st.targets[0], ast.Attribute) \
+                and isinstance(st.targets[0].value, ast.Name) and st.targets[0].value.id == 'self' and st.targets[0].attr in RUNV:
+            nm = st.targets[0].attr
+            v = interp2.ev(st.value, env2)
+            selfo2.attrs[nm] = v
+            seen.append(nm)
+            emit('sed_' + nm, ['t', 'rho0', 'eblast', 'alpha', 'omega', 'xg2', 'gamp1', 'gpogm', 'geometry', 'gamma', 'gamm1'], v, 'Sedov._run: self.%s' % nm)
+    missing = [c for c in RUNV if c not in seen]
+    if missing:
+        raise Unsupported('sedov._run: no top-level assignment of %s' % missing)
+
+    # --- physical(): density, velocity, pressure from the similarity functions
+    ret, it = translate_method(mod, 'Sedov', 'physical', ['f_fun', 'g_fun', 'h_fun'], ['rho2', 'u2', 'p2', 'gamm1', 'gamma'])
+    if not (isinstance(ret, (tuple, list)) and len(ret) == 5):
+        raise Unsupported('sedov.physical: unexpected shape')
+    for nm, e in zip(('density', 'velocity', 'pressure'), ret[:3]):
+        emit('sed_phys_' + nm, ['f_fun', 'g_fun', 'h_fun', 'rho2', 'u2', 'p2'], e, 'physical(f, g, h)[%s]' % nm)
+
+    # --- alpha as assembled from the two quadratures: `if self.geometry == 1: self.alpha = A else: self.alpha = B` in __init__
+    found = []
+    for node in ast.walk(meth['__init__']):
+        if isinstance(node, ast.If) and isinstance(node.test, ast.Compare) and isinstance(node.test.left, ast.Attribute) \
+                and node.test.left.attr == 'geometry' and len(node.test.ops) == 1 and isinstance(node.test.ops[0], ast.Eq) \
+                and isinstance(node.test.comparators[0], ast.Constant) and node.test.comparators[0].value == 1:
+            def only_alpha(body):
+                if len(body) == 1 and isinstance(body[0], ast.Assign) and isinstance(body[0].targets[0], ast.Attribute) and body[0].targets[0].attr == 'alpha':
+                    return body[0].value
+                return None
+            a, b = only_alpha(node.body), only_alpha(node.orelse)
+            if a is not None and b is not None:
+                found.append((a, b))
+    if len(found) != 1:
+        raise Unsupported('sedov.__init__: expected exactly one `if self.geometry == 1: self.alpha = .. else: self.alpha = ..`, found %d' % len(found))
+    selfo3 = Obj('', {a: ('var', a) for a in ['geometry', 'gamm1', 'eval1', 'eval2']}, frozen=True, name='self')
+    interp3 = Interp(mod, {})
+    emit('sed_alpha_planar', ['eval1', 'eval2', 'gamm1'], interp3.ev(found[0][0], {'self': selfo3}), 'Sedov.__init__: self.alpha for geometry == 1')
+    emit('sed_alpha_curved', ['geometry', 'eval1', 'eval2', 'gamm1'], interp3.ev(found[0][1], {'self': selfo3}), 'Sedov.__init__: self.alpha for geometry != 1')
+    return {'Sedov': (text, js)}
+
+
 def methods_group(relpath, outname, specs):
     """specs: list of (coq prefix, class, [self attribute names], [(method, [arg names])])"""
     from gen import translate_method, nan_cond, strip_nan
